@@ -20,6 +20,10 @@ Vocabulary of the statements (defined in Lemmas/, all executable):
 -/
 import PybropsModel.Lemmas.HaploPipeline
 import PybropsModel.Lemmas.HaploFixed
+import PybropsModel.Lemmas.HaploSort
+import PybropsModel.Lemmas.HaploCount
+import PybropsModel.Lemmas.HaploRound
+import PybropsModel.Lemmas.HaploSpecSound2
 set_option autoImplicit false
 set_option linter.unusedSectionVars false
 
@@ -102,6 +106,49 @@ theorem bin_ranges_disjoint_across_chrom {β : Type} [LinearOrder β] (hb pos : 
     simp only [nbins, List.map_cons, List.sum_cons] at this ⊢
     omega
 
+/-! ### 2b. `linspace` in rounded (floating-point) arithmetic
+
+`RoundOK rnd`: `rnd` is monotone and `rnd 0 = 0`.  `ChromRoundOK rnd n c`: `n ≥ 1`, the chromosome's first
+position is representable (`rnd start = start`) and the last COMPUTED point `rnd(rnd((n-1)·step) + start)` does
+not overshoot the stop.  numpy's formula is `linspaceR rnd`: `step = rnd(rnd(stop-start)/n)`,
+`y[j] = rnd(rnd(j·step) + start)`, `y[n] = stop`; the comparisons `>=`, `<=` of `haplobin` are exact. -/
+
+/-- **rounded `linspace` is a legal boundary vector** for every rounding that meets the contract: all
+    theorems of §2–§4 stated for `BoundsOK` boundaries therefore hold for the labels computed in floating
+    point, markers exactly on (rounded) boundaries included -/
+theorem rounded_linspace_ok (rnd : α → α) (hr : RoundOK rnd) (nblk : List Nat) (chroms : List (List α))
+    (hc : List.Forall₂ (ChromRoundOK rnd) nblk chroms) (hv : ValidChroms chroms) :
+    List.Forall₂ BoundsOK (hboundsR rnd nblk chroms) chroms ∧ nbins (hboundsR rnd nblk chroms) = nblk.sum :=
+  hboundsR_ok rnd hr nblk chroms hc hv.2
+
+/-- **`bin_total` / `bin_monotone` for every admissible rounding**: every marker is labelled, one label
+    each, labels non-decreasing along the genome and below the number of requested blocks -/
+theorem bin_total_monotone_rounded (rnd : α → α) (hr : RoundOK rnd) (nblk : List Nat) (chroms : List (List α))
+    (hc : List.Forall₂ (ChromRoundOK rnd) nblk chroms) (hv : ValidChroms chroms) :
+    ∃ L : List Nat, haplobinR rnd nblk chroms = L.map some ∧ L.length = (chroms.map List.length).sum ∧
+      L.Pairwise (· ≤ ·) ∧ (∀ l ∈ L, l < nblk.sum) ∧
+      (nruns L = nblk.sum ↔ List.Forall₂ BinsFilled (hboundsR rnd nblk chroms) chroms) := by
+  obtain ⟨hok, hnb⟩ := hboundsR_ok rnd hr nblk chroms hc hv.2
+  have hp : ∀ c ∈ chroms, c.Pairwise (· ≤ ·) := fun c hcm => (hv.2 c hcm).2
+  refine ⟨labelsAll (hboundsR rnd nblk chroms) chroms 0, haplobinHB_eq_labels _ _ 0 hok,
+    labelsAll_length _ _ 0 hok, labelsAll_sorted _ _ 0 hok hp, ?_, ?_⟩
+  · intro l hl
+    have := (labelsAll_range _ _ 0 hok l hl).2
+    omega
+  · rw [← hnb]; exact nruns_eq_nbins_iff _ chroms hok hp
+
+/-- exact arithmetic is the instance `rnd = id` of the contract (so §2b subsumes `exact_linspace_ok`) -/
+theorem exact_is_rounded (a b : α) (n : Nat) (hn : 1 ≤ n) (hab : a ≤ b) :
+    linspaceR id a b n = linspace a b n ∧ RoundOK (id : α → α) ∧ pointR id a b n (n - 1) ≤ b :=
+  ⟨linspaceR_id a b n, roundOK_id, pointR_id_last a b n hn hab⟩
+
+/-- the no-overshoot clause of the contract cannot be dropped: rounding up to integers is monotone, fixes
+    0 and 1, and turns `linspace(0, 1, 4)` into 0, 1, 2, 1 (not sorted) -/
+theorem overshoot_clause_needed_counterexample :
+    let rnd : ℚ → ℚ := fun x => (⌈x⌉ : ℤ)
+    RoundOK rnd ∧ rnd 0 = 0 ∧ rnd 1 = 1 ∧ linspaceR rnd 0 1 3 = [0, 1, 2, 1] :=
+  overshoot_needed
+
 /-! ## 3. run-length boundaries: the blocks tile the markers -/
 
 /-- **`bounds_partition`.**  For every non-empty label vector `haplobin_bounds` returns
@@ -178,6 +225,35 @@ theorem fewer_blocks_iff_empty_bin (n : Nat) (chroms : List (List α)) (guard : 
   refine ⟨hle, ?_⟩
   rw [← hiff]
   omega
+
+/-- **exact block count of the as-is code.**  The number of blocks is the number of equal-width bins
+    `[hb[j], hb[j+1])` (last bin of a chromosome closed) that hold at least one marker, summed over the
+    chromosomes (`filledAll`, a decidable count on the input). -/
+theorem blocks_eq_nonempty_bins {β : Type} [LinearOrder β] (hbs chroms : List (List β))
+    (h : List.Forall₂ BoundsOK hbs chroms) (hc : ∀ c ∈ chroms, c ≠ [] ∧ c.Pairwise (· ≤ ·)) :
+    nruns (labelsAll hbs chroms 0) = filledAll hbs chroms :=
+  nruns_eq_filledAll hbs chroms h hc
+
+/-- … for the pipeline, and **which columns of the haplotype matrix stay unwritten**: with
+    `k = filledAll …` non-empty bins the pipeline returns exactly `k ≤ n` blocks, and in every fibre (phase,
+    individual, trait) column `j` holds the value of the `j`-th block for `j < k` and is never written for
+    `k ≤ j < n` — the uninitialised columns are exactly the last `n - k` ones, whatever the data. -/
+theorem unwritten_columns (n : Nat) (chroms : List (List α)) (guard : Bool)
+    (hv : ValidChroms chroms) (nblk hbin : List Nat) (bnds : List (Nat × Nat))
+    (h : blocksOf n chroms guard = .ok (nblk, hbin, bnds)) (g u : List α) :
+    bnds.length = filledAll (hbounds nblk chroms) chroms ∧ bnds.length ≤ n ∧
+    (hmatFibre n bnds g u).length = n ∧
+    ∀ j, (hmatFibre n bnds g u)[j]? =
+      if hj : j < bnds.length then some (some (blockVal g u bnds[j]))
+      else if j < n then some none else none := by
+  obtain ⟨_, rfl, rfl, hok, hnb⟩ := blocksOf_ok n chroms guard hv nblk hbin bnds h
+  have hle : (blockPairs (labelsAll (hbounds nblk chroms) chroms 0)).length ≤ n := by
+    rw [blockPairs_length]
+    have := nruns_le_nbins _ chroms hok (fun c hc => (hv.2 c hc).2)
+    omega
+  refine ⟨?_, hle, hmatFibre_length n _ g u hle, fun j => hmatFibre_cell n _ g u hle j⟩
+  rw [blockPairs_length]
+  exact nruns_eq_filledAll _ chroms hok hv.2
 
 /-- the marker-count guard of `haplomat` / `_calc_haplomat` (more blocks than markers on a chromosome ⇒
     raise) only ever refuses layouts that have an empty equal-width bin (pigeonhole): a refusal by the
@@ -397,6 +473,138 @@ theorem ohv_mono_parents (V : List (List (List α))) (nblk : Nat) (p q : List Na
   rw [heq]
   exact ohv_ge_choice V nblk q ch (fun b hb => ⟨hpq (hch b hb).1, (hch b hb).2⟩)
 
+/-! ## 7. the latent functions of the OHV subset problem and of the genotype builder -/
+
+/-- **`ohv_latent_def`.**  The OHV subset `latentfn` is minus the arithmetic mean of the optimal haploid
+    values of the selected crosses (each of which is bounded below by every block-boundary doubled haploid of
+    that cross, `ohv_ge_any_dh`). -/
+theorem ohv_latent_def (ohvcol : List α) (x : List Nat) (hx : ∀ i ∈ x, i < ohvcol.length) :
+    ohvLatent ohvcol x = -((x.map (fun i => ohvcol.getD i 0)).sum / (x.length : α)) := by
+  unfold ohvLatent
+  rw [npsum_eq]
+  have : x.filterMap (fun i => ohvcol[i]?) = x.map (fun i => ohvcol.getD i 0) := by
+    induction x with
+    | nil => rfl
+    | cons a t ih =>
+      have ha : a < ohvcol.length := hx a List.mem_cons_self
+      simp only [List.filterMap_cons, List.getElem?_eq_getElem ha, List.map_cons, List.getD_eq_getElem?_getD,
+        Option.getD_some]
+      rw [ih (fun i hi => hx i (List.mem_cons_of_mem _ hi))]
+      simp [List.getD_eq_getElem?_getD]
+  rw [this]
+  simp only [Nat.cast_one]
+  ring
+
+/-- the mean lies between the smallest and the largest selected OHV -/
+theorem ohv_latent_bounds (ohvcol : List α) (x : List Nat) (hx : ∀ i ∈ x, i < ohvcol.length) (hne : x ≠ [])
+    (lo hi : α) (hb : ∀ i ∈ x, lo ≤ ohvcol.getD i 0 ∧ ohvcol.getD i 0 ≤ hi) :
+    lo ≤ -ohvLatent ohvcol x ∧ -ohvLatent ohvcol x ≤ hi := by
+  rw [ohv_latent_def ohvcol x hx, neg_neg]
+  have hlen : (0 : α) < (x.length : α) := by exact_mod_cast List.length_pos_of_ne_nil hne
+  have h1 : (x.length : α) * lo ≤ (x.map (fun i => ohvcol.getD i 0)).sum := by
+    have := List.sum_le_sum (l := x) (f := fun _ => lo) (g := fun i => ohvcol.getD i 0) (fun i hi => (hb i hi).1)
+    simpa [List.map_const', List.sum_replicate, nsmul_eq_mul] using this
+  have h2 : (x.map (fun i => ohvcol.getD i 0)).sum ≤ (x.length : α) * hi := by
+    have := List.sum_le_sum (l := x) (f := fun i => ohvcol.getD i 0) (g := fun _ => hi) (fun i hi' => (hb i hi').2)
+    simpa [List.map_const', List.sum_replicate, nsmul_eq_mul] using this
+  constructor
+  · rw [le_div_iff₀ hlen]; linarith
+  · rw [div_le_iff₀ hlen]; linarith
+
+/-- **`gb_def`.**  The genotype-builder `latentfn` is `-(ploidy / nbest) · Σ_blocks top(b)` where, with
+    `best(b)` the list of the selected individuals' best-phase values of block `b`, `top(b)` is the largest sum
+    any `nbest` of them can reach: it bounds every `nbest`-element sub-multiset of `best(b)` and is attained
+    by one; and it equals the Spec's formulation "sort descending, take `nbest`". -/
+theorem gb_def (V : List (List (List α))) (nblk : Nat) (x : List Nat) (nbest : Nat) (hnb : nbest ≤ x.length) :
+    gbLatent V nblk x nbest =
+      -((V.length : α) / (nbest : α)) * ((List.range nblk).map (gbPerBlock V x nbest)).sum ∧
+    ∀ b, (∀ s : List α, s.Subperm (x.map (fun p => (bestBlock V [p] b).getD 0)) → s.length = nbest →
+            s.sum ≤ gbPerBlock V x nbest b) ∧
+         (∃ s : List α, s.Subperm (x.map (fun p => (bestBlock V [p] b).getD 0)) ∧ s.length = nbest ∧
+            s.sum = gbPerBlock V x nbest b) ∧
+         gbPerBlock V x nbest b = ((sortDesc (x.map (fun p => (bestBlock V [p] b).getD 0))).take nbest).sum := by
+  refine ⟨by unfold gbLatent; rw [npsum_eq], ?_⟩
+  intro b
+  set best := x.map (fun p => (bestBlock V [p] b).getD 0) with hbest
+  have hlen : best.length = x.length := by simp [hbest]
+  have hgb : gbPerBlock V x nbest b = ((sortAsc best).drop (best.length - nbest)).sum := by
+    unfold gbPerBlock
+    rw [npsum_eq, hlen]
+    rfl
+  refine ⟨?_, ?_, ?_⟩
+  · intro s hs hl
+    rw [hgb, ← hl]
+    exact subperm_sum_le_topk best s hs
+  · exact ⟨_, topk_subperm best nbest, topk_length best nbest (by omega), hgb.symm⟩
+  · rw [hgb, drop_asc_sum_eq_take_desc_sum best nbest (by omega)]
+
+/-- the best-phase value of individual `p` for block `b` is the maximum over the phases of `p` -/
+theorem best_phase_def (V : List (List (List α))) (p b : Nat) (v : α) :
+    v ∈ cands V [p] b ↔ ∃ m : Nat, ((V[m]?).bind (fun Vm => (Vm[p]?).bind (fun r => r[b]?))) = some v := by
+  rw [cands_iff]
+  constructor
+  · rintro ⟨m, p', hp', hv⟩
+    simp only [List.mem_singleton] at hp'
+    subst hp'
+    exact ⟨m, hv⟩
+  · rintro ⟨m, hv⟩
+    exact ⟨m, p, by simp, hv⟩
+
+/-! ## 8. `spec_sound`: every clause of the Spec oracle (`c18.spec`, Model/HaploSpec.lean) accepts the model -/
+
+/-- **`spec_sound`, structural clauses.**  On every valid layout, whatever the pipeline returns passes
+    `apportion`, `partition`, `labels` and `within_chrom` (so these clauses can never raise a false alarm on a
+    tree that the model mirrors — D10 cases included), and `total` holds iff all requested blocks exist. -/
+theorem spec_sound_structure (n : Nat) (chroms : List (List α)) (guard : Bool) (hv : ValidChroms chroms)
+    (nblk hbin : List Nat) (bnds : List (Nat × Nat))
+    (h : blocksOf n chroms guard = .ok (nblk, hbin, bnds)) :
+    ∃ hstix hspix hlen, haplobinBounds hbin = .ok (hstix, hspix, hlen) ∧ bnds = List.zip hstix hspix ∧
+      Spec.apportion n chroms.length nblk = true ∧
+      Spec.partition hbin.length hstix hspix hlen = true ∧
+      Spec.labels hbin.length hbin hstix = true ∧
+      Spec.withinChrom (chromStarts chroms 0) hstix = true ∧
+      ((hstix.length == n) = true ↔ bnds.length = n) := by
+  obtain ⟨hnb, rfl, rfl, hok, _⟩ := blocksOf_ok n chroms guard hv nblk hbin bnds h
+  obtain ⟨h1, h2, h3⟩ := blocks_sum n chroms hv.1 nblk hnb
+  have hlne := labelsAll_ne_nil (hbounds nblk chroms) chroms 0 hok hv.1 (fun c hc => (hv.2 c hc).1)
+  cases hl : labelsAll (hbounds nblk chroms) chroms 0 with
+  | nil => exact absurd hl hlne
+  | cons a xs =>
+    refine ⟨_, _, _, haplobinBounds_eq a xs, rfl, apportion_sound n _ nblk h1 h2 h3, ?_, ?_, ?_, ?_⟩
+    · simpa using partition_sound a xs
+    · simpa using labels_sound a xs
+    · exact withinChrom_sound _ chroms hok hv.1 (fun c hc => (hv.2 c hc).1) a xs hl
+    · simp [blockPairs]
+
+/-- **`spec_sound`, value clauses.**  When every requested block exists, the model's fully written haplotype
+    matrix, its `ohvmat`, and its OPV / OHV / GB latent vectors pass `conserve`, `ohv_def`, `ohv_ge_dh` (for ANY
+    list of proposed block-wise choices), `opv_def`, `ohv_latent_def` and `gb_def`.  (`ohvmatModel` etc. are what
+    the driver op `c18.model` returns: `haplomat_finite_partial` identifies the table it reads with `blockTable`.) -/
+theorem spec_sound_values (l : List Nat) (hne : l ≠ []) (geno : List (List (List α))) (ucols : List (List α))
+    (hgne : geno ≠ []) (hg : ∀ gm ∈ geno, ∀ g ∈ gm, g.length = l.length)
+    (hu : ∀ u ∈ ucols, u.length = l.length) (xm : List (List Nat))
+    (hxm : ∀ par ∈ xm, par ≠ [] ∧ ∀ p ∈ par, ∀ gm ∈ geno, p < gm.length)
+    (xo : List Nat) (hxo : ∀ i ∈ xo, i < xm.length) (xp : List Nat) (nbest : Nat) (hnb : nbest ≤ xp.length)
+    (choices : List (List (Nat × Nat))) :
+    let bnds := blockPairs l
+    let ohvmat := ohvmatModel geno ucols bnds xm
+    Spec.conserve geno ucols (Spec.hmatTotal geno ucols bnds) (nruns l) = true ∧
+    Spec.ohvDef geno ucols bnds xm ohvmat = true ∧
+    Spec.ohvGeDh geno ucols bnds xm ohvmat choices = true ∧
+    Spec.opvDef geno ucols bnds xp (ucols.map (fun u => opvLatent (blockTable geno u bnds) bnds.length xp)) = true ∧
+    Spec.ohvLatentDef ohvmat xo (ohvLatentModel ohvmat ucols.length xo) = true ∧
+    Spec.gbDef geno ucols bnds xp nbest
+      (ucols.map (fun u => gbLatent (blockTable geno u bnds) bnds.length xp nbest)) = true := by
+  intro bnds ohvmat
+  refine ⟨conserve_sound l hne geno ucols hg hu, ohvDef_sound geno ucols bnds xm,
+    ohvGeDh_sound l hne geno ucols hgne hg hu xm hxm choices, opvDef_sound geno ucols bnds xp,
+    ohvLatentDef_sound ohvmat ucols.length xo ?_, gbDef_sound geno ucols bnds xp nbest hnb⟩
+  intro i hi
+  simpa [ohvmat, ohvmatModel] using hxo i hi
+
+/-- the tolerant comparison of the Spec accepts equal values (no clause can fail on exact agreement) -/
+theorem spec_approx_refl (a : α) : Spec.approx a a = true := approx_refl a
+
 /-! ## non-vacuity: concrete non-trivial inputs meet the hypotheses (kernel evaluation) -/
 
 -- the pinned-test layout (17 markers, 3 chromosomes, 5 blocks): apportionment, labels, bounds
@@ -437,6 +645,28 @@ example : ohv (α := ℚ) [[[5, 8], [6, 0], [3, 0]], [[4, 0], [7, 8], [2, 8]]] 2
     opvLatent (α := ℚ) [[[5, 8], [6, 0], [3, 0]], [[4, 0], [7, 8], [2, 8]]] 2 [0, 2] = -26 := by decide +kernel
 example : cands (α := ℚ) [[[5, 8], [6, 0], [3, 0]], [[4, 0], [7, 8], [2, 8]]] [0, 2] 0 = [5, 3, 4, 2] := by
   decide +kernel
+-- genotype builder and OHV latent on the same table: top-2 of the best phases per block; mean of two crosses
+example : gbLatent (α := ℚ) [[[5, 8], [6, 0], [3, 0]], [[4, 0], [7, 8], [2, 8]]] 2 [0, 1, 2] 2 = -28 ∧
+    gbPerBlock (α := ℚ) [[[5, 8], [6, 0], [3, 0]], [[4, 0], [7, 8], [2, 8]]] [0, 1, 2] 2 0 = 12 := by decide +kernel
+example : ohvLatent (α := ℚ) [30, 26, 30] [0, 1] = -28 := by decide +kernel
+-- the exact count on the D10 witness: 2 of the 4 bins hold a marker
+example : filledAll (α := ℚ) [linspace 0 1 4] [[0, 1/100, 2/100, 1]] = 2 := by decide +kernel
+-- a rounding other than the identity that meets the contract on a concrete chromosome: round to multiples of 1/8
+example : let rnd : ℚ → ℚ := fun x => (⌊x * 8 + 1/2⌋ : ℤ) / 8
+    linspaceR rnd 0 1 3 = [0, 3/8, 3/4, 1] ∧ rnd 0 = 0 ∧ pointR rnd 0 1 3 2 ≤ 1 := by
+  intro rnd
+  refine ⟨?_, by simp only [rnd]; norm_num, ?_⟩ <;> simp only [linspaceR, pointR, stepR, rnd] <;> norm_num [List.range_succ]
+-- the Spec clauses are not vacuous: they accept the model's output of a 2-chromosome layout and reject perturbations
+example : Spec.partition 5 [0, 1, 3] [1, 3, 5] [1, 2, 2] = true ∧ Spec.partition 5 [0, 2, 3] [1, 3, 5] [1, 1, 2] = false ∧
+    Spec.labels 5 [0, 1, 1, 2, 2] [0, 1, 3] = true ∧ Spec.labels 5 [0, 1, 1, 2, 2] [0, 2, 3] = false ∧
+    Spec.withinChrom [0, 3] [0, 1, 3] = true ∧ Spec.withinChrom [0, 2] [0, 1, 3] = false ∧
+    Spec.apportion 3 2 [2, 1] = true ∧ Spec.apportion 3 2 [2, 2] = false := by decide
+example : Spec.conserve (α := ℚ) [[[1, 0, 1, 1]]] [[1, 2, 4, 8]] (Spec.hmatTotal [[[1, 0, 1, 1]]] [[1, 2, 4, 8]] [(0, 3), (3, 4)]) 2 = true ∧
+    Spec.conserve (α := ℚ) [[[1, 0, 1, 1]]] [[1, 2, 4, 8]] [[[[5], [9]]]] 2 = false ∧
+    Spec.opvDef (α := ℚ) [[[1, 0, 1, 1]]] [[1, 2, 4, 8]] [(0, 3), (3, 4)] [0] [-13] = true ∧
+    Spec.opvDef (α := ℚ) [[[1, 0, 1, 1]]] [[1, 2, 4, 8]] [(0, 3), (3, 4)] [0] [-12] = false ∧
+    Spec.gbDef (α := ℚ) [[[1, 0, 1, 1]]] [[1, 2, 4, 8]] [(0, 3), (3, 4)] [0] 1 [-13] = true ∧
+    Spec.ohvLatentDef (α := ℚ) [[30], [26], [30]] [0, 1] [-28] = true := by decide +kernel
 -- the patched pipeline on the two counterexamples and on the guard case (2 far-apart markers + 4 close ones)
 example : blocksOfFixed (α := ℚ) 4 [[0, 1/100, 2/100, 1]] = .ok ([4], [0, 1, 2, 3], [(0, 1), (1, 2), (2, 3), (3, 4)]) := by
   decide +kernel
